@@ -195,3 +195,33 @@ fn saphyr_string_parser<'a>(input: &'a str) -> SaphyrParser<'a> { unimplemented!
 /// `Rc::new(RefCell::new(None))`
 #[verifier::external_body]
 fn err_cell_new_empty() -> (r: ErrCell) ensures r.content() is None, { unimplemented!() }
+
+// ---- F30: where the recent-bytes ring sits relative to the decoder (from_reader_with_options) ----
+impl ByteReader {
+    /// does this reader deliver the UTF-8 text that the parser's locations refer to (encoding sniffed and transcoded, byte order
+    /// mark removed)?  Unknown for the user's reader; true behind encoding_rs_io's decoder with sniffing on and no forced encoding
+    pub uninterp spec fn yields_decoded_text(&self) -> bool;
+}
+/// encoding_rs_io::DecodeReaderBytesBuilder as far as this site uses it (assumed, from its documentation; the full builder
+/// contract is in contracts/reader.shim.rs)
+pub struct DecoderBuilder { pub ghost forced: bool }
+impl DecoderBuilder {
+    #[verifier::external_body]
+    pub fn new() -> (r: DecoderBuilder) ensures !r.forced, { unimplemented!() }
+    /// `.encoding(None)`: sniff the byte order mark
+    #[verifier::external_body]
+    pub fn encoding_none(self) -> (r: DecoderBuilder) ensures !r.forced, { unimplemented!() }
+    /// the built decoder is itself a reader; decoding text that is already UTF-8 without a mark changes nothing
+    #[verifier::external_body]
+    pub fn build(self, reader: ByteReader) -> (r: ByteReader) ensures r.yields_decoded_text() == (!self.forced || reader.yields_decoded_text()), { unimplemented!() }
+}
+/// `ring_reader::SharedRingReader<R>`: what it holds is what its inner reader delivers (unit `ring`: the window is the last
+/// bytes read from the source)
+#[verifier::external_body]
+pub struct SharedRing { _p: () }
+impl SharedRing { pub uninterp spec fn holds_decoded_text(&self) -> bool; }
+#[verifier::external_body]
+fn shared_ring_new(reader: ByteReader) -> (r: SharedRing) ensures r.holds_decoded_text() == reader.yields_decoded_text(), { unimplemented!() }
+/// `SharedRingReaderHandle::new(&shared)`: a reader that delegates to the ring reader, which is transparent (unit `ring`, C09 clauses of `read`)
+#[verifier::external_body]
+fn shared_ring_handle(shared: &SharedRing) -> (r: ByteReader) ensures r.yields_decoded_text() == shared.holds_decoded_text(), { unimplemented!() }
